@@ -1,26 +1,28 @@
 //! Batch runner: spreads independent simulated runs over OS threads. Each run is single-threaded
 //! and a pure function of (VERIF_SEED, property, config, machine, run index); all aggregates are
-//! commutative (sums, maxima, set unions) and the reported violation is the one with the lowest
-//! job number, so the output does not depend on the number of worker threads.
+//! commutative (sums, maxima, set unions) and for every violation key the reported instance is
+//! the one with the lowest job number, so the output does not depend on the number of workers.
 
-use crate::free::{Reach, Trace};
+use crate::free::Reach;
 use crate::oracle::{Stats, Violation};
 use serde_json::{json, Value};
 use std::collections::{BTreeMap, BTreeSet, HashSet};
 use std::sync::atomic::{AtomicU64, Ordering};
 use std::sync::Mutex;
 
-pub struct JobOut {
-    pub trace: Option<Trace>, // kept only for samples and violations
-    pub violation: Option<Violation>,
+pub struct JobOut<T> {
+    /// the replayable artifact of this run (kept only when it violates something)
+    pub artifact: Option<T>,
+    pub violations: Vec<Violation>,
     pub reach: Reach,
     pub nontrivial: bool,
     /// fault kinds that actually fired in this run (fault configurations)
     pub fired: Vec<(String, u64)>,
+    pub sample: Option<Value>,
+    pub label: (u32, String),
 }
 
-#[derive(Default)]
-pub struct Batch {
+pub struct Batch<T> {
     pub name: String,
     pub evaluations: u64,
     pub stats: Stats,
@@ -32,13 +34,35 @@ pub struct Batch {
     pub records: u64,
     pub fired: BTreeMap<String, u64>,
     pub samples: Vec<Value>,
-    pub violation: Option<Trace>,
+    /// per violation key: (lowest job, artifact, violation)
+    pub violations: BTreeMap<(String, String), (u64, T, Violation)>,
     pub wall_s: f64,
-    pub per_machine: BTreeMap<String, u64>,
+    pub per_label: BTreeMap<String, u64>,
 }
 
-impl Batch {
-    pub fn absorb(&mut self, o: Batch) {
+impl<T> Default for Batch<T> {
+    fn default() -> Self {
+        Batch {
+            name: String::new(),
+            evaluations: 0,
+            stats: Stats::default(),
+            shapes: HashSet::new(),
+            nontrivial_shapes: HashSet::new(),
+            trees: HashSet::new(),
+            states: BTreeSet::new(),
+            steps: 0,
+            records: 0,
+            fired: BTreeMap::new(),
+            samples: Vec::new(),
+            violations: BTreeMap::new(),
+            wall_s: 0.0,
+            per_label: BTreeMap::new(),
+        }
+    }
+}
+
+impl<T> Batch<T> {
+    pub fn absorb(&mut self, o: Batch<T>) {
         self.evaluations += o.evaluations;
         self.stats.merge(&o.stats);
         self.shapes.extend(o.shapes);
@@ -51,13 +75,22 @@ impl Batch {
             *self.fired.entry(k).or_insert(0) += v;
         }
         self.samples.extend(o.samples);
-        if self.violation.is_none() {
-            self.violation = o.violation;
+        for (k, v) in o.violations {
+            match self.violations.get(&k) {
+                Some(cur) if cur.0 <= v.0 => {}
+                _ => {
+                    self.violations.insert(k, v);
+                }
+            }
         }
         self.wall_s += o.wall_s;
-        for (k, v) in o.per_machine {
-            *self.per_machine.entry(k).or_insert(0) += v;
+        for (k, v) in o.per_label {
+            *self.per_label.entry(k).or_insert(0) += v;
         }
+    }
+    /// the violation with the lowest job number
+    pub fn first_violation(&self) -> Option<&(u64, T, Violation)> {
+        self.violations.values().min_by_key(|v| v.0)
     }
     pub fn to_json(&self) -> Value {
         json!({
@@ -72,7 +105,7 @@ impl Batch {
             "fault_kinds_fired": self.fired,
             "counters": self.stats.counters,
             "worst_ratio_over_tolerance": self.stats.worst,
-            "runs_per_machine": self.per_machine,
+            "runs_per_label": self.per_label,
             "wall_s": self.wall_s,
         })
     }
@@ -86,36 +119,37 @@ pub fn n_workers() -> usize {
         .max(1)
 }
 
-/// Runs jobs 0..n_jobs; `job(j, stats)` executes one run. `machine_of(j)` labels it.
-pub fn run_batch<F>(name: &str, n_jobs: u64, n_samples: usize, machine_of: &(dyn Fn(u64) -> (u32, String) + Sync), job: F) -> Batch
+/// Runs jobs 0..n_jobs. With `stop_at_first` the batch stops scheduling jobs above the lowest
+/// failing job (C08/C09: one violation is enough); without it every job runs and one instance
+/// per violation key is kept (C05/C11/C20: distinct findings are triaged separately).
+pub fn run_batch<T: Send + Clone, F>(name: &str, n_jobs: u64, stop_at_first: bool, job: F) -> Batch<T>
 where
-    F: Fn(u64, &mut Stats) -> JobOut + Sync,
+    F: Fn(u64, &mut Stats) -> JobOut<T> + Sync,
 {
     let t0 = std::time::Instant::now();
     let next = AtomicU64::new(0);
     let min_fail = AtomicU64::new(u64::MAX);
-    let fails: Mutex<Vec<(u64, Trace)>> = Mutex::new(Vec::new());
     let samples: Mutex<Vec<(u64, Value)>> = Mutex::new(Vec::new());
     let workers = n_workers();
-    let mut parts: Vec<Batch> = Vec::new();
+    let mut parts: Vec<Batch<T>> = Vec::new();
     std::thread::scope(|sc| {
         let mut hs = Vec::new();
         for _ in 0..workers {
             hs.push(sc.spawn(|| {
-                let mut b = Batch::default();
+                let mut b: Batch<T> = Batch::default();
                 loop {
                     let start = next.fetch_add(32, Ordering::Relaxed);
                     if start >= n_jobs {
                         break;
                     }
                     for j in start..(start + 32).min(n_jobs) {
-                        if j > min_fail.load(Ordering::Relaxed) {
+                        if stop_at_first && j > min_fail.load(Ordering::Relaxed) {
                             continue;
                         }
                         let out = job(j, &mut b.stats);
-                        let (mi, mname) = machine_of(j);
+                        let (mi, mname) = out.label;
                         b.evaluations += 1;
-                        *b.per_machine.entry(mname).or_insert(0) += 1;
+                        *b.per_label.entry(mname).or_insert(0) += 1;
                         b.shapes.insert(out.reach.shape);
                         if out.nontrivial {
                             b.nontrivial_shapes.insert(out.reach.shape);
@@ -129,16 +163,22 @@ where
                         for (k, v) in out.fired {
                             *b.fired.entry(k).or_insert(0) += v;
                         }
-                        if (j as usize) < n_samples {
-                            if let Some(t) = &out.trace {
-                                samples.lock().unwrap().push((j, sample_of(t)));
-                            }
+                        if let Some(s) = out.sample {
+                            samples.lock().unwrap().push((j, s));
                         }
-                        if let Some(v) = out.violation {
-                            let mut t = out.trace.expect("violating job must return its trace");
-                            t.violation = Some(v);
+                        if !out.violations.is_empty() {
                             min_fail.fetch_min(j, Ordering::Relaxed);
-                            fails.lock().unwrap().push((j, t));
+                            let art = out.artifact.expect("violating job must return its artifact");
+                            for v in out.violations.into_iter() {
+                                let k = v.key();
+                                let better = match b.violations.get(&k) {
+                                    Some(cur) => j < cur.0,
+                                    None => true,
+                                };
+                                if better {
+                                    b.violations.insert(k, (j, art.clone(), v));
+                                }
+                            }
                         }
                     }
                 }
@@ -149,39 +189,14 @@ where
             parts.push(h.join().expect("worker thread panicked (harness error)"));
         }
     });
-    let mut total = Batch { name: name.to_string(), ..Default::default() };
+    let mut total: Batch<T> = Batch { name: name.to_string(), ..Default::default() };
     for p in parts {
         total.absorb(p);
     }
     let mut s = samples.into_inner().unwrap();
     s.sort_by_key(|(j, _)| *j);
     total.samples = s.into_iter().map(|(_, v)| v).collect();
-    let mut f = fails.into_inner().unwrap();
-    f.sort_by_key(|(j, _)| *j);
-    total.violation = f.into_iter().next().map(|(_, t)| t);
     total.wall_s = t0.elapsed().as_secs_f64();
     total.name = name.to_string();
     total
-}
-
-/// a compact, human-readable rendering of a run for the evidence file
-pub fn sample_of(t: &Trace) -> Value {
-    let evs: Vec<String> = t.events.iter().take(24).map(|e| format!("{:?}", e)).collect();
-    json!({
-        "config": t.config, "machine": t.machine, "run_index": t.run_index,
-        "tapes": [tape_brief(&t.tapes[0]), tape_brief(&t.tapes[1])],
-        "exact_data": t.exact_data,
-        "knobs": t.knobs,
-        "n_events": t.events.len(),
-        "first_events": evs,
-    })
-}
-
-fn tape_brief(t: &crate::tape::TapeSpec) -> Value {
-    match t {
-        crate::tape::TapeSpec::Explicit(v) => json!({"explicit_len": v.len()}),
-        crate::tape::TapeSpec::Gen { family, len, scale_exp, .. } => {
-            json!({"family": crate::tape::FAMILY_NAMES[*family as usize % 10], "len": len, "scale_exp": scale_exp})
-        }
-    }
 }
